@@ -99,6 +99,12 @@ func faultLen(v []byte) (int, []byte) {
 				if len(v) > 0 {
 					v = v[:len(v)-1]
 				}
+			case "zero": // the far ends of the length field's range
+				l = 0
+			case "fffc":
+				l = 0xfffc
+			case "ffff":
+				l = 0xffff
 			}
 		}
 	}
